@@ -1,0 +1,294 @@
+//! Verification hooks - DO NOT USE!
+//!
+//! This module requires the internal `__verif` feature to be enabled. It is used by an
+//! external deterministic-simulation harness to (1) observe a few internal values
+//! (`probe`), (2) replace a few internal values in order to model a party that deviates
+//! from the protocol in a self-consistent way (`tap_*`), and (3) call otherwise private
+//! sub-protocols with a plain-integer share type.
+//!
+//! With the feature disabled none of this is compiled and no call site exists.
+#![allow(missing_docs)]
+#![allow(clippy::unwrap_used)]
+
+use std::{cell::RefCell, path::Path, rc::Rc};
+
+use garble_lang::register_circuit::Circuit;
+use rand_chacha::ChaCha20Rng;
+use serde::{Serialize, de::DeserializeOwned};
+
+use crate::{
+    channel::Channel,
+    mpc::{
+        data_types::{Auth, Delta, Key, Mac, Share},
+        faand, fpre,
+        protocol::{_mpc, Context, Preprocessor},
+    },
+    utils::file_or_mem_buf::FileOrMemBuf,
+};
+
+/// Receiver of probe / tap events. Installed per thread with [`set_hooks`].
+pub trait Hooks {
+    /// Observe an internal value.
+    fn probe(&self, _site: &'static str, _data: &[u8]) {}
+    /// Observe and possibly replace an internal bit (`idx` is site specific).
+    fn tap_bool(&self, _site: &'static str, _idx: usize, v: bool) -> bool {
+        v
+    }
+    /// Observe and possibly replace an internal 128-bit value (`idx` is site specific).
+    fn tap_u128(&self, _site: &'static str, _idx: usize, v: u128) -> u128 {
+        v
+    }
+    /// Observe and possibly overwrite an internal byte string.
+    fn tap_bytes(&self, _site: &'static str, _v: &mut [u8]) {}
+}
+
+thread_local! {
+    static HOOKS: RefCell<Option<Rc<dyn Hooks>>> = const { RefCell::new(None) };
+}
+
+/// Install (or remove) the hooks for the calling thread.
+pub fn set_hooks(h: Option<Rc<dyn Hooks>>) {
+    HOOKS.with(|c| *c.borrow_mut() = h);
+}
+
+fn current() -> Option<Rc<dyn Hooks>> {
+    HOOKS.with(|c| c.borrow().clone())
+}
+
+pub(crate) fn probe(site: &'static str, data: &[u8]) {
+    if let Some(h) = current() {
+        h.probe(site, data);
+    }
+}
+
+pub(crate) fn tap_bool(site: &'static str, idx: usize, v: bool) -> bool {
+    match current() {
+        Some(h) => h.tap_bool(site, idx, v),
+        None => v,
+    }
+}
+
+pub(crate) fn tap_u128(site: &'static str, idx: usize, v: u128) -> u128 {
+    match current() {
+        Some(h) => h.tap_u128(site, idx, v),
+        None => v,
+    }
+}
+
+pub(crate) fn tap_bytes(site: &'static str, v: &mut [u8]) {
+    if let Some(h) = current() {
+        h.tap_bytes(site, v);
+    }
+}
+
+/// An authenticated share with plain integers: `macs[k]` / `keys[k]` relate to party `k`.
+#[derive(Debug, Clone, PartialEq, Eq)]
+pub struct PlainShare {
+    pub bit: bool,
+    pub macs: Vec<u128>,
+    pub keys: Vec<u128>,
+}
+
+impl From<&Share> for PlainShare {
+    fn from(s: &Share) -> Self {
+        PlainShare {
+            bit: s.0,
+            macs: s.1.0.iter().map(|(m, _)| m.0).collect(),
+            keys: s.1.0.iter().map(|(_, k)| k.0).collect(),
+        }
+    }
+}
+
+impl From<&PlainShare> for Share {
+    fn from(s: &PlainShare) -> Self {
+        Share(
+            s.bit,
+            Auth(
+                s.macs
+                    .iter()
+                    .zip(&s.keys)
+                    .map(|(m, k)| (Mac(*m), Key(*k)))
+                    .collect(),
+            ),
+        )
+    }
+}
+
+/// Pairwise shared generators as produced by the pairwise coin toss.
+pub type PairwiseRngs = Vec<Vec<Option<ChaCha20Rng>>>;
+
+pub async fn shared_rng(channel: &impl Channel, i: usize, n: usize) -> Result<ChaCha20Rng, String> {
+    faand::shared_rng(channel, i, n)
+        .await
+        .map_err(|e| format!("{e:?}"))
+}
+
+pub async fn shared_rng_pairwise(
+    channel: &impl Channel,
+    i: usize,
+    n: usize,
+) -> Result<PairwiseRngs, String> {
+    faand::shared_rng_pairwise(channel, i, n)
+        .await
+        .map_err(|e| format!("{e:?}"))
+}
+
+pub async fn fashare(
+    channel: &impl Channel,
+    delta: u128,
+    i: usize,
+    n: usize,
+    l: usize,
+    pairwise: &mut PairwiseRngs,
+    multi: &mut ChaCha20Rng,
+) -> Result<Vec<PlainShare>, String> {
+    let shares = faand::fashare((channel, Delta(delta)), i, n, l, pairwise, multi)
+        .await
+        .map_err(|e| format!("{e:?}"))?;
+    Ok(shares.iter().map(PlainShare::from).collect())
+}
+
+#[allow(clippy::too_many_arguments)]
+pub async fn beaver_aand(
+    channel: &impl Channel,
+    delta: u128,
+    alpha_beta: &[(PlainShare, PlainShare)],
+    i: usize,
+    n: usize,
+    multi: &mut ChaCha20Rng,
+    abc: &[PlainShare],
+) -> Result<Vec<PlainShare>, String> {
+    let alpha_beta: Vec<(Share, Share)> = alpha_beta
+        .iter()
+        .map(|(a, b)| (Share::from(a), Share::from(b)))
+        .collect();
+    let abc: Vec<Share> = abc.iter().map(Share::from).collect();
+    let out = faand::beaver_aand(
+        (channel, Delta(delta)),
+        &alpha_beta,
+        i,
+        n,
+        alpha_beta.len(),
+        multi,
+        &abc,
+    )
+    .await
+    .map_err(|e| format!("{e:?}"))?;
+    Ok(out.iter().map(PlainShare::from).collect())
+}
+
+pub fn bucket_size(l: usize) -> usize {
+    faand::bucket_size(l)
+}
+
+/// The trusted dealer, serving `parties` parties over `channel`.
+pub async fn fpre(channel: &(impl Channel + Send), parties: usize) -> Result<(), String> {
+    fpre::fpre(channel, parties)
+        .await
+        .map_err(|e| format!("{e:?}"))
+}
+
+/// `mpc` with the trusted-dealer preprocessor at party index `p_fpre`.
+#[allow(clippy::too_many_arguments)]
+pub async fn mpc_trusted_dealer(
+    channel: &impl Channel,
+    circuit: &Circuit,
+    inputs: &[bool],
+    p_fpre: usize,
+    p_eval: usize,
+    p_own: usize,
+    p_out: &[usize],
+    tmp_dir: Option<&Path>,
+) -> Result<Vec<bool>, crate::Error> {
+    let ctx = Context::new(
+        channel,
+        circuit,
+        inputs,
+        Preprocessor::TrustedDealer(p_fpre),
+        p_eval,
+        p_own,
+        p_out,
+        tmp_dir,
+    );
+    _mpc(&ctx).await
+}
+
+/// The exchange with the trusted dealer as a party performs it (delta, random shares, AND shares).
+pub async fn dealer_session(
+    channel: &impl Channel,
+    p_fpre: usize,
+    num_shares: usize,
+    pick_and: &(dyn Fn(&[PlainShare]) -> Vec<(PlainShare, PlainShare)> + Sync),
+) -> Result<(u128, Vec<PlainShare>, Vec<(PlainShare, PlainShare)>, Vec<PlainShare>), String> {
+    use crate::channel::{recv_from, recv_vec_from, send_to};
+    let e = |e: crate::channel::Error| format!("{e:?}");
+    send_to::<()>(channel, p_fpre, "delta", &[]).await.map_err(e)?;
+    let delta: Delta = recv_from(channel, p_fpre, "delta")
+        .await
+        .map_err(e)?
+        .pop()
+        .ok_or("empty")?;
+    send_to(channel, p_fpre, "random shares", &[num_shares as u32])
+        .await
+        .map_err(e)?;
+    let shares: Vec<Share> = recv_vec_from(channel, p_fpre, "random shares", num_shares)
+        .await
+        .map_err(e)?;
+    let plain: Vec<PlainShare> = shares.iter().map(PlainShare::from).collect();
+    let pairs = pick_and(&plain);
+    let pairs_s: Vec<(Share, Share)> = pairs
+        .iter()
+        .map(|(a, b)| (Share::from(a), Share::from(b)))
+        .collect();
+    send_to(channel, p_fpre, "AND shares", &pairs_s)
+        .await
+        .map_err(e)?;
+    let ands: Vec<Share> = recv_vec_from(channel, p_fpre, "AND shares", pairs_s.len())
+        .await
+        .map_err(e)?;
+    Ok((
+        delta.0,
+        plain,
+        pairs,
+        ands.iter().map(PlainShare::from).collect(),
+    ))
+}
+
+/// Facade over the chunked spill buffer.
+pub struct SpillBuf<T>(FileOrMemBuf<T>);
+
+impl<T: Serialize + DeserializeOwned + Clone> SpillBuf<T> {
+    pub fn new(dir: Option<&Path>, capacity: usize) -> Result<Self, String> {
+        FileOrMemBuf::new(dir, capacity)
+            .map(SpillBuf)
+            .map_err(|e| format!("{e:?}"))
+    }
+
+    pub fn is_file(&self) -> bool {
+        matches!(self.0, FileOrMemBuf::ChunkedTmpFile { .. })
+    }
+
+    pub fn write_chunk(&mut self, chunk: &[T]) -> Result<(), String> {
+        self.0.write_chunk(chunk).map_err(|e| format!("{e:?}"))
+    }
+
+    /// Creates an item iterator, takes at most `take` items (all if `None`), drops it.
+    pub fn read_items(&mut self, take: Option<usize>) -> Result<Vec<T>, String> {
+        let it = self.0.iter().map_err(|e| format!("{e:?}"))?;
+        let mut out = vec![];
+        for item in it.take(take.unwrap_or(usize::MAX)) {
+            out.push(item.map_err(|e| format!("{e:?}"))?);
+        }
+        Ok(out)
+    }
+
+    /// Creates a chunk iterator, takes at most `take` chunks (all if `None`), drops it.
+    pub fn read_chunks(&mut self, size: usize, take: Option<usize>) -> Result<Vec<Vec<T>>, String> {
+        let it = self.0.chunks(size).map_err(|e| format!("{e:?}"))?;
+        let mut out = vec![];
+        for chunk in it.take(take.unwrap_or(usize::MAX)) {
+            out.push(chunk.map_err(|e| format!("{e:?}"))?.into_owned());
+        }
+        Ok(out)
+    }
+}
